@@ -106,6 +106,9 @@ def render(out, struct, words):
     return {S_NUM: "1. ", S_BULLET: "- ", S_MD: "# ", S_PLAIN: ""}[struct] + body
 
 
+REASONS = {"1": "reason", "0": "", "n": None, "z": 0, "l": [], "o": object(), "s0": "0"}
+
+
 class _Stub:
     """stands in for MHCDisplay: shows the fingerprint the protocol line says the agent currently displays"""
 
@@ -138,7 +141,7 @@ class C17(Prop):
         "p:none", "p:suspicious", "p:confirmed", "p:critical", "p:anergic", "p:s2-cross", "p:stored",
         "p:stored-pruned", "p:cond-raised", "d:peptide", "d:short", "d:evicted", "d:canary",
         "m:pruned-old", "m:prune-kept", "m:imported", "m:import-full", "m:reimport", "m:roundtrip",
-        "m:forgot", "m:forgot-nothing", "k:health", "k:cell", "k:stats", "k:export", "k:repr", "k:agents", "k:tpeek",
+        "m:forgot", "m:forgot-nothing", "m:recall-hit", "m:recall-miss", "d:cleared", "k:health", "k:cell", "k:stats", "k:export", "k:repr", "k:agents", "k:tpeek",
     ]
     assumptions = [
         "fingerprint hashes are compared as opaque values (md5 prefixes treated as injective on the strings explored)",
@@ -491,7 +494,7 @@ class C17(Prop):
                 elif op == "check" and len(t) == 11:
                     o = "no-tcell" if st["tc"] is None else str(len(st["tc"].profile.check(self.mk_pep("a", fp_parse(t[1:])))))
                 elif op == "flag" and len(t) == 2:
-                    o = tstep(lambda tc: tc.flag_manually("reason" if t[1] == "1" else ""))
+                    o = tstep(lambda tc: tc.flag_manually(REASONS[t[1]]))
                 elif op == "tset" and len(t) == 3 and t[1] in ("rep", "anergy"):
                     o = tstep(lambda tc: setattr(tc, "repeated_anomaly_threshold" if t[1] == "rep" else "anergy_threshold",
                                                  int(t[2])))
@@ -660,8 +663,22 @@ class C17(Prop):
                                     (bool(s_.suppressed), self.AC.get(s_.original_action, "?"),
                                      self.AC.get(s_.modified_action, "?"))) for a_, s_ in self.eval_log]
                 elif op == "pflag" and len(t) == 3:
-                    ims().flag_agent(f"a{int(t[1])}", "reason" if t[2] == "1" else "")
+                    ims().flag_agent(f"a{int(t[1])}", REASONS[t[2]])
                     o = "ok"
+                elif op == "dclear" and len(t) == 2:
+                    d = ims().displays.get(f"a{int(t[1])}")
+                    if not isinstance(d, self.DISP.MHCDisplay):
+                        o = "no-display"
+                    else:
+                        d.clear()
+                        o = f"ok n={len(d.observations)}"
+                elif op == "mrecall" and len(t) == 4:
+                    q = self.MEM.ThreatSignature(agent_id=f"a{int(t[1])}", vocabulary_hash=f"v{int(t[2])}",
+                                                 structure_hash=f"s{int(t[3])}", violation_types=(),
+                                                 threat_level=self.T.ThreatLevel.CONFIRMED,
+                                                 effective_response=self.T.ResponseAction.ISOLATE)
+                    hit = ims().memory.recall(q)
+                    o = "miss" if hit is None else f"hit {self.LV.get(hit.threat_level, '?')} {self.AC.get(hit.effective_response, '?')}"
                 elif op in ("preset", "presetfa") and len(t) == 2:
                     tc = ims().tcells.get(f"a{int(t[1])}")
                     if tc is not None:
@@ -788,7 +805,7 @@ class C17(Prop):
                         out.append(Violation("self_tolerance_after_training", "window of identical fingerprints inside "
                                              "its own baseline", f"profile={pr}", idx))
             elif op == "flag" and o.startswith("ok"):
-                t_flag = t[1] == "1"
+                t_flag = t[1] in ("1", "o", "s0")       # a manual flag is set when a reason was really given
             elif op == "treset" and o.startswith("ok"):
                 t_flag, t_streak, t_last = False, 0, None
             elif op == "tresetfa" and o.startswith("ok"):
@@ -817,7 +834,7 @@ class C17(Prop):
                 f = o.split()
                 supp, orig, mod = f[0] == "1", f[1], f[2]
                 out += self._treg_clauses(idx, ex["level"], ex["action"], supp, orig, mod, by_rule=not ex["shortcut"])
-            elif op in ("reg", "show", "dreg", "obs", "canary"):
+            elif op in ("reg", "show", "dreg", "obs", "canary", "dclear"):
                 if o.startswith("ok"):
                     fresh_trained[int(t[1])] = False
             elif op == "train" and ex:
@@ -928,6 +945,7 @@ class C17(Prop):
     # generators
     # --------------------------------------------------------------------------------------------------------
     G64 = [F(k, 64) for k in (1, 2, 8, 16, 32, 64, 128, 512)]
+    FLAGS = ["1", "1", "1", "1", "0", "n", "z", "l", "o", "s0"]     # reasons: strings, None, 0, [], an object, "0"
 
     def gen_profile(self, rng):
         def band(lo_choices, widths):
@@ -1002,7 +1020,7 @@ class C17(Prop):
                     pr = self.gen_profile(rng)
                     lines.append("tset profile " + " ".join(prof_tokens(pr)))
             elif x < 0.76:
-                lines.append("flag " + rng.choice(["1", "1", "1", "0"]))
+                lines.append("flag " + rng.choice(self.FLAGS))
             elif x < 0.84:
                 lines.append("treset")
             elif x < 0.97:
@@ -1190,7 +1208,7 @@ class C17(Prop):
                 lines.append(f"show {a} " + " ".join(fp_tokens(base[a])))
                 lines.append(f"pinspect {a}")
             elif x < 0.68:
-                lines.append(f"pflag {a} " + rng.choice(["1", "1", "1", "0"]))
+                lines.append(f"pflag {a} " + rng.choice(self.FLAGS))
             elif x < 0.75:
                 lines.append(f"presetfa {a}")
             elif x < 0.79:
@@ -1255,6 +1273,11 @@ class C17(Prop):
             return "reimport"
         if x < 0.70:
             return self.forget_op(rng, agents)
+        if x < 0.73:
+            a = rng.choice(agents)
+            b = base.get(a)
+            v, sh = (b[6], b[7]) if (b is not None and rng.random() < 0.7) else (rng.choice([1, 2, 5]), rng.choice([1, 2]))
+            return f"mrecall {a} {v} {sh}"
         if x < 0.76:
             return "roundtrip"
         items = []
@@ -1542,6 +1565,10 @@ class C17(Prop):
                 lines.append(f"presetfa {a}")
             elif x < 0.92:
                 lines.append(f"preset {a}")
+            elif x < 0.95 and mo >= 1:
+                del win[:], canaries[:]
+                lines.append(f"dclear {a}")
+                emit_inspect()
             else:
                 emit_train()
                 emit_inspect()
@@ -1577,6 +1604,7 @@ class C17(Prop):
             if rng.random() < 0.3:
                 lines.append(rng.choice([f"pflag {a} 1", f"preset {a}", f"show {a} " + " ".join(fp_tokens(threat)),
                                          "expire", f"updated {a}", f"pruneold {rng.choice([0, 1, 3])}", "reimport", "roundtrip", "roundtrip",
+                                         f"mrecall {a} {threat[6]} {threat[7]}", f"mrecall {a} {threat[6]} {threat[7]}",
                                          f"import {a}:{threat[6]}:{threat[7]}:{rng.choice(self.GOOD_PAIRS)}:{rng.choice([0, 1, 3])}"]))
         if rng.random() < 0.5:
             lines += [f"show {a} " + " ".join(fp_tokens(base)), f"pinspect {a}",
